@@ -65,7 +65,7 @@ class Module:
         # local variable names are brought to the spelling of the reference copy (see sa/alpha.py): a valid alpha-renaming,
         # so the rules - many of which name locals - decide the same thing whatever the locals are called
         from . import alpha
-        self.alpha = alpha.normalise_module(self.tree, rel)
+        self.alpha = alpha.normalise_module(self.tree, rel, root)
         self.tree._parent = None
         self.tree._mod = self
         for n in ast.walk(self.tree):
